@@ -469,13 +469,13 @@ class Ctx:
         self.traces += len(files)
         self.states += sum(r["distinct"] for r in results)
         self.transitions += sum(r["generated"] for r in results)
+        loaded = (None, None)
         for i in sorted(bad):
             fn, _ = files[i // shard]
-            with open(fn) as fh:
-                for k, ln in enumerate(fh):
-                    if k == i % shard:
-                        e = json.loads(ln)
-                        break
+            if loaded[0] != fn:                      # each shard is read once, however many of its events were rejected
+                with open(fn) as fh:
+                    loaded = (fn, fh.readlines())
+            e = json.loads(loaded[1][i % shard])
             exp = bad[i]
             clause = first_diff(exp, e["o"])
             cls = _classify(classify, e)
@@ -699,16 +699,21 @@ class Ctx:
         """The recorded history (from its init event up to event i) containing event i."""
         fi, li = self._trace_idx[i]
         fn = self._trace_files[fi][0]
-        hist = []
-        with open(fn) as f:
-            for k, ln in enumerate(f):
-                e = json.loads(ln)
-                if e["op"] == "init":
-                    hist = []
-                hist.append(e)
-                if k == li:
-                    break
-        return hist
+        cache = getattr(self, "_trace_cache", None)
+        if cache is None or cache[0] != fn:
+            evs, inits = [], []
+            with open(fn) as f:
+                for k, ln in enumerate(f):
+                    e = json.loads(ln)
+                    if e["op"] == "init":
+                        inits.append(k)
+                    evs.append(e)
+            cache = self._trace_cache = (fn, evs, inits)
+        _, evs, inits = cache
+        import bisect
+        j = bisect.bisect_right(inits, li) - 1
+        start = inits[j] if j >= 0 else 0
+        return evs[start:li + 1]
 
 
 # ---------------------------------------------------------------------------------------
